@@ -9,11 +9,13 @@ package main
 
 import (
 	"bytes"
+	"context"
 	"encoding/json"
 	"errors"
 	"fmt"
 	"math"
 	"reflect"
+	"strings"
 	"time"
 
 	utilerrors "k8s.io/apimachinery/pkg/util/errors"
@@ -57,7 +59,8 @@ type c20Ev struct {
 	St     string     `json:"st,omitempty"`     // status events: kstatus text
 	M      string     `json:"m,omitempty"`      // status events: message
 	W      bool       `json:"w,omitempty"`      // validation: error wrapped in *validation.Error
-	// error events: the error is an aggregate of these causes (Agg 1: cli-utils MultiError, 2: apimachinery Aggregate); E is its text
+	// error events: the error is an aggregate of these causes (Agg 1: cli-utils MultiError, 2: apimachinery Aggregate; 3 the context's
+	// DeadlineExceeded, 4 wrapped by the causes' text, 5 / 6 likewise Canceled); E is its text
 	Causes []string `json:"causes,omitempty"`
 	Agg    int      `json:"agg,omitempty"`
 }
@@ -71,8 +74,17 @@ func c20AggErr(e c20Ev) error {
 	for _, c := range e.Causes {
 		errs = append(errs, errors.New(c))
 	}
-	if e.Agg == 2 {
+	switch e.Agg {
+	case 2:
 		return utilerrors.NewAggregate(errs)
+	case 3:
+		return context.DeadlineExceeded
+	case 4:
+		return fmt.Errorf("%s: %w", strings.Join(e.Causes, "; "), context.DeadlineExceeded)
+	case 5:
+		return context.Canceled
+	case 6:
+		return fmt.Errorf("%s: %w", strings.Join(e.Causes, "; "), context.Canceled)
 	}
 	return multierror.New(errs...)
 }
@@ -590,7 +602,10 @@ func c20Gen(rng *proto.Rng, maxGroups, maxIds int) c20In {
 		}
 	}
 	// final error: always possible; a truncated run usually ends with one
-	if rng.Chance(1, 16) {
+	if rng.Chance(1, 12) {
+		// the run's own deadline / cancellation, bare or wrapped by a client call: an error event like any other
+		in.Events = append(in.Events, c20AggEv(3+rng.Intn(4), []string{"task failed (action: \"Inventory\")", "Get \"https://x/api\""}[:1+rng.Intn(2)]))
+	} else if rng.Chance(1, 16) {
 		in.Events = append(in.Events, c20AggEv(1+rng.Intn(2), []string{"task failed (action: \"Inventory\")", "context canceled", "50% done"}[:1+rng.Intn(3)]))
 	} else if (truncated && rng.Chance(3, 4)) || rng.Chance(1, 8) {
 		in.Events = append(in.Events, c20Ev{T: "error", E: sp(proto.Pick(rng, []string{"context canceled", "task failed (action: \"Inventory\")", "polling for status failed: x", "disk 99% full: %w"}))})
